@@ -142,9 +142,134 @@ func union(boxes []rect.Rect) rect.Rect {
 type fontCase struct {
 	Font    *type1.Font `json:"font"`
 	Queries []string    `json:"queries"`
+	// Edits are changes made in place to the same value after it was queried;
+	// every query is repeated after each of them (a value that was asked
+	// before must answer for what it holds now).
+	Edits []edit `json:"edits,omitempty"`
+}
+
+type edit struct {
+	Kind int `json:"kind"`
+	A    int `json:"a"`
+	B    int `json:"b"`
+}
+
+func sortedNames[T any](m map[string]T) []string {
+	names := make([]string, 0, len(m))
+	for n := range m {
+		names = append(names, n)
+	}
+	sort.Strings(names)
+	return names
+}
+
+// editEncoding changes an encoding vector in place.
+func editEncoding(enc []string, names []string, e edit) {
+	if len(enc) == 0 {
+		return
+	}
+	i, j := e.A%len(enc), e.B%len(enc)
+	switch e.Kind % 3 {
+	case 0:
+		enc[i], enc[j] = enc[j], enc[i]
+	case 1:
+		if len(names) > 0 {
+			enc[i] = names[e.B%len(names)]
+		}
+	default:
+		enc[i] = ".notdef"
+	}
+}
+
+func (e edit) applyFont(f *type1.Font) {
+	names := sortedNames(f.Glyphs)
+	switch e.Kind % 7 {
+	case 0, 1, 2:
+		editEncoding(f.Encoding, names, e)
+	case 3:
+		g := &type1.Glyph{WidthX: float64(100 + e.A%900)}
+		g.MoveTo(float64(e.A%300), float64(e.B%300))
+		g.LineTo(float64(e.B%500), float64(e.A%700))
+		g.ClosePath()
+		f.Glyphs[[]string{"added", "Zadded", "A", "zero"}[e.B%4]] = g
+	case 4:
+		if len(names) > 1 {
+			if n := names[e.A%len(names)]; n != ".notdef" {
+				delete(f.Glyphs, n)
+			}
+		}
+	case 5:
+		if len(names) > 0 {
+			g := f.Glyphs[names[e.A%len(names)]]
+			g.WidthX += float64(1 + e.B%50)
+			if len(g.Cmds) > 0 {
+				g.Cmds = append([]type1.GlyphOp{}, g.Cmds...)
+				g.MoveTo(float64(e.A%2000-1000), float64(e.B%2000-1000))
+				g.LineTo(float64(e.B%900), float64(e.A%900))
+				g.ClosePath()
+			}
+		}
+	default:
+		f.FontMatrix[0] *= 2
+		f.FontMatrix[3] *= 0.5
+	}
+}
+
+func (e edit) applyMetrics(m *afm.Metrics) {
+	names := sortedNames(m.Glyphs)
+	switch e.Kind % 6 {
+	case 0, 1, 2:
+		editEncoding(m.Encoding, names, e)
+	case 3:
+		m.Glyphs[[]string{"added", "Zadded", "A", "zero"}[e.B%4]] = &afm.GlyphInfo{WidthX: float64(100 + e.A%900), BBox: rect.Rect{LLx: -5, LLy: -7, URx: float64(e.A % 1500), URy: float64(e.B % 1500)}}
+	case 4:
+		if len(names) > 1 {
+			if n := names[e.A%len(names)]; n != ".notdef" {
+				delete(m.Glyphs, n)
+			}
+		}
+	default:
+		if len(names) > 0 {
+			g := m.Glyphs[names[e.A%len(names)]]
+			g.WidthX += float64(1 + e.B%50)
+			g.BBox.URx += 33
+		}
+	}
+}
+
+func genEdits(t *rapid.T) []edit {
+	n := rapid.SampledFrom([]int{0, 0, 1, 2, 4}).Draw(t, "nedits")
+	var es []edit
+	for i := 0; i < n; i++ {
+		es = append(es, edit{Kind: rapid.IntRange(0, 41).Draw(t, "editkind"), A: rapid.IntRange(0, 5000).Draw(t, "edita"), B: rapid.IntRange(0, 5000).Draw(t, "editb")})
+	}
+	return es
 }
 
 func checkFont(c *fontCase) string {
+	if len(c.Edits) == 0 {
+		return checkFontOnce(c)
+	}
+	// the edits work on a copy, so that the case can be stored and replayed
+	raw, _ := json.Marshal(c.Font)
+	f := &type1.Font{}
+	if err := json.Unmarshal(raw, f); err != nil {
+		return checkFontOnce(c)
+	}
+	d := &fontCase{Font: f, Queries: c.Queries}
+	if msg := checkFontOnce(d); msg != "" {
+		return msg
+	}
+	for i, e := range c.Edits {
+		e.applyFont(f)
+		if msg := checkFontOnce(d); msg != "" {
+			return fmt.Sprintf("after %d change(s) made in place to a font that was queried before (last: kind %d): %s", i+1, e.Kind%7, msg)
+		}
+	}
+	return ""
+}
+
+func checkFontOnce(c *fontCase) string {
 	f := c.Font
 	glyphs := map[string]bool{}
 	for n := range f.Glyphs {
@@ -234,9 +359,32 @@ func checkFont(c *fontCase) string {
 type metricsCase struct {
 	M       *afm.Metrics `json:"m"`
 	Queries []string     `json:"queries"`
+	Edits   []edit       `json:"edits,omitempty"`
 }
 
 func checkMetrics(c *metricsCase) string {
+	if len(c.Edits) == 0 {
+		return checkMetricsOnce(c)
+	}
+	raw, _ := json.Marshal(c.M)
+	m := &afm.Metrics{}
+	if err := json.Unmarshal(raw, m); err != nil {
+		return checkMetricsOnce(c)
+	}
+	d := &metricsCase{M: m, Queries: c.Queries}
+	if msg := checkMetricsOnce(d); msg != "" {
+		return msg
+	}
+	for i, e := range c.Edits {
+		e.applyMetrics(m)
+		if msg := checkMetricsOnce(d); msg != "" {
+			return fmt.Sprintf("after %d change(s) made in place to metrics that were queried before (last: kind %d): %s", i+1, e.Kind%6, msg)
+		}
+	}
+	return ""
+}
+
+func checkMetricsOnce(c *metricsCase) string {
 	m := c.M
 	glyphs := map[string]bool{}
 	var boxes []rect.Rect
@@ -366,7 +514,7 @@ func genMatrix(t *rapid.T) matrix.Matrix {
 func TestP1Font(t *testing.T) {
 	rec := ev.New("C19", "font")
 	defer rec.Finish(t)
-	rec.Rule("type1.Font values: 0-12 glyphs with or without .notdef; names with shared prefixes; encodings absent, shorter than 256, full, naming missing glyphs, the same glyph at several codes; command lists incl. empty, only moves, curves whose control points lie far outside the box of the end points, stray closepaths; axis-aligned font matrices incl. negative, zero and non-1/1000 scales and translations; queried names present and absent. Oracle: independent re-computation - GlyphList is a permutation of glyphs plus .notdef, starts with .notdef, then the encoded glyphs such that some choice of one code per glyph is strictly increasing, then the rest strictly increasing by name, length == NumGlyphs; glyph boxes = min/max over end points (through matrix x 1000 for the PDF variants, 1e-9 relative), zero for missing/empty glyphs; font boxes = union of the non-zero glyph boxes; widths = WidthX x M[0] x 1000, per-glyph call == width map exactly, .notdef width or 0 for absent names. Non-trivial: >= 3 glyphs, >= 1 encoded and >= 1 unencoded, >= 1 non-empty outline; distinct by font value.")
+	rec.Rule("type1.Font values: 0-12 glyphs with or without .notdef; names with shared prefixes; encodings absent, shorter than 256, full, naming missing glyphs, the same glyph at several codes; command lists incl. empty, only moves, curves whose control points lie far outside the box of the end points, stray closepaths; axis-aligned font matrices incl. negative, zero and non-1/1000 scales and translations; queried names present and absent. Oracle: independent re-computation - GlyphList is a permutation of glyphs plus .notdef, starts with .notdef, then the encoded glyphs such that some choice of one code per glyph is strictly increasing, then the rest strictly increasing by name, length == NumGlyphs; glyph boxes = min/max over end points (through matrix x 1000 for the PDF variants, 1e-9 relative), zero for missing/empty glyphs; font boxes = union of the non-zero glyph boxes; widths = WidthX x M[0] x 1000, per-glyph call == width map exactly, .notdef width or 0 for absent names. Two values of five are then changed in place 1-4 times (encoding entries swapped, set or cleared; a glyph added, removed or altered; the font matrix scaled) and every query is repeated after each change: a value that was asked before must answer for what it holds now. Non-trivial: >= 3 glyphs, >= 1 encoded and >= 1 unencoded, >= 1 non-empty outline; distinct by font value.")
 	ev.SetupRapid(150000, 6000000)
 	rapid.Check(t, func(t *rapid.T) {
 		f := &type1.Font{FontInfo: &type1.FontInfo{FontName: "Q"}, Private: &type1.PrivateDict{}, Glyphs: map[string]*type1.Glyph{}}
@@ -387,8 +535,11 @@ func TestP1Font(t *testing.T) {
 		}
 		var multi bool
 		f.Encoding, multi = genEncoding(t, names)
-		c := &fontCase{Font: f, Queries: append([]string{"nosuchglyph", ".notdef", "A"}, names...)}
-		rec.Eval(1)
+		c := &fontCase{Font: f, Queries: append([]string{"nosuchglyph", ".notdef", "A"}, names...), Edits: genEdits(t)}
+		if len(c.Edits) > 0 {
+			rec.Class("queried again after changes in place")
+		}
+		rec.Eval(1 + len(c.Edits))
 		enc, unenc := 0, 0
 		for _, nm := range names {
 			found := false
@@ -433,7 +584,7 @@ func TestP1Font(t *testing.T) {
 func TestP2Metrics(t *testing.T) {
 	rec := ev.New("C19", "metrics")
 	defer rec.Finish(t)
-	rec.Rule("afm.Metrics values: 0-12 glyphs with or without .notdef, well-formed boxes (LL <= UR) incl. zero and degenerate boxes, encodings as for fonts. Oracle: the same glyph-list predicate and NumGlyphs, FontBBoxPDF = union of the non-zero boxes, GlyphWidthPDF = width, .notdef width or 0. Non-trivial: >= 3 glyphs, >= 1 encoded and >= 1 unencoded; distinct by value.")
+	rec.Rule("afm.Metrics values: 0-12 glyphs with or without .notdef, well-formed boxes (LL <= UR) incl. zero and degenerate boxes, encodings as for fonts. Oracle: the same glyph-list predicate and NumGlyphs, FontBBoxPDF = union of the non-zero boxes, GlyphWidthPDF = width, .notdef width or 0. Two values of five are then changed in place 1-4 times and queried again, as for fonts. Non-trivial: >= 3 glyphs, >= 1 encoded and >= 1 unencoded; distinct by value.")
 	ev.SetupRapid(60000, 2400000)
 	rapid.Check(t, func(t *rapid.T) {
 		m := &afm.Metrics{Glyphs: map[string]*afm.GlyphInfo{}}
@@ -458,7 +609,10 @@ func TestP2Metrics(t *testing.T) {
 			names = append(names, name)
 		}
 		m.Encoding, _ = genEncoding(t, names)
-		c := &metricsCase{M: m, Queries: append([]string{"nosuchglyph", ".notdef"}, names...)}
+		c := &metricsCase{M: m, Queries: append([]string{"nosuchglyph", ".notdef"}, names...), Edits: genEdits(t)}
+		if len(c.Edits) > 0 {
+			rec.Class("queried again after changes in place")
+		}
 		rec.Eval(1)
 		enc, unenc := 0, 0
 		for _, nm := range names {
